@@ -88,6 +88,36 @@ def family_conflict(v):
     return False
 
 
+def satisfies_wq(v):
+    """the hypothesis WQ of the Coq equation theorems (C08_deleted_nonlinks_iff / _links_iff), re-implemented over a
+    snapshot, to report how many generated states it covers"""
+    cps = v.of_class('ConnectionPoint')
+    for a, b, c, _ in [(a, b, c, 0) for a in v.n for b, c in v.adj[a]]:
+        pair = {v.cls(a), v.cls(b)}
+        if ('Link' in pair or pair == {'NetworkService', 'ConnectionPoint'}) and c != 'connects':
+            return False
+    for i in cps:
+        if len(v.links_of(i)) > 1:
+            return False
+        if v.typ(i) == 'ServicePort' and v.nb(i, 'connects', 'ConnectionPoint'):
+            return False
+    for l in v.of_class('Link'):
+        e = v.nb(l, 'connects', 'ConnectionPoint')
+        if any(v.typ(x) == 'ServicePort' for x in e) and len(e) != 2:
+            return False
+        for x in e:
+            for y in e:
+                if x != y and (y in v.nb(x, 'connects', 'ConnectionPoint') or
+                               set(v.nb(x, 'connects', 'ConnectionPoint')) & set(v.nb(y, 'connects', 'ConnectionPoint'))):
+                    return False
+    for s in v.of_class('NetworkService'):
+        for i in v.nb(s, 'connects', 'ConnectionPoint'):
+            for x in v.nb(i, 'connects', 'ConnectionPoint'):
+                if v.nb(x, 'connects', 'ConnectionPoint') != [i]:
+                    return False
+    return True
+
+
 def resolve(v, flavour, op):
     """ids of the elements an operation addresses, from the snapshot alone; None when it addresses nothing"""
     def top(cls, name, pred=lambda i: True):
@@ -534,6 +564,17 @@ class Removals(Stream):
             if rest:
                 bad.append(('not-deleted op=%s%s' % (k, (' ' + note.replace(' ', '-')) if note else ''),
                             'owned elements or artefacts left behind: %s' % [(v.cls(i), v.name(i)) for i in rest]))
+        # the link equation (Coq: C08_link_deleted_iff), on the implementation's own before/after: a link is deleted iff it
+        # had >= 2 ends, lost >= 1 and <= 1 survives - in states where no link has two ends in one port family
+        if k != 'remove_link' and not family_conflict(v):
+            for l in v.of_class('Link'):
+                e = v.nb(l, 'connects', 'ConnectionPoint')
+                should = len(e) >= 2 and any(x in removed for x in e) and len([x for x in e if x not in removed]) <= 1
+                if (l in removed) != should:
+                    bad.append(('link-equation op=%s' % k,
+                                'link %s with ends %s: deleted=%s, but %d of its ends were deleted'
+                                % (v.name(l), [v.name(x) for x in e], l in removed, len([x for x in e if x in removed]))))
+                    break
         fb = o.get('fresh_before') or [None] * len(o['hids'])
         for h, b, a, fr, frb in zip(o['hids'], o['before'], o['after'], o['fresh'], fb):
             if frb is not None and b != frb:
@@ -607,6 +648,8 @@ class Removals(Stream):
                 inc('state_has_subinterfaces')
             if family_conflict(v):
                 inc('set_order_sensitive_state_not_compared_with_model')
+            if satisfies_wq(v):
+                inc('state_satisfies_WQ_hypothesis_of_the_equation')
             for b in self.judge(c, o):
                 inc('finding:' + b[0])
         return dict(sorted(h.items()))
